@@ -153,6 +153,16 @@ pub fn c03() -> Vec<Item> {
     v
 }
 
+pub fn c17() -> Vec<Item> {
+    let fams = props::c17("quick");
+    let mut v = vec![];
+    for (label, bq, bt) in [("two_writers/cap1", 2usize, 3usize), ("two_writers/cap2", 2, 3), ("two_writers/cap3", 2, 3)] {
+        let sc = find(&fams, "model_to_sink", label);
+        v.push(sim_item(format!("sim/{}/2w", label), sc, 2, &["sink_order", "sink_content", "sink_capacity"], false, bq, bt));
+    }
+    v
+}
+
 pub fn c07() -> Vec<Item> {
     let fams = props::c07("quick");
     let mut v = vec![];
